@@ -66,8 +66,8 @@ pub fn main(tier: Tier, seed: u64) -> i32 {
     }
     let mut batches = vec![];
     let mut salt = 0;
-    for k in if tier.is_thorough() { vec![1usize, 2, 3, 4, 6, 8] } else { vec![1, 2, 3, 4] } {
-        for c in if tier.is_thorough() { vec![1usize, 2, 3] } else { vec![1, 2] } {
+    for k in if tier.is_thorough() { vec![1usize, 2, 3, 4, 6, 8] } else { vec![1, 2, 3, 4, 6] } {
+        for c in [1usize, 2, 3] {
             for (wc, oa) in [(false, true), (true, false)] {
                 if k == 1 && c > 1 {
                     continue;
